@@ -1,6 +1,6 @@
 #!/bin/bash
 # Regenerates coq/_CoqProject from the directory contents (coq_makefile orders by coqdep) and the Makefile when it changed.
-cd "$(dirname "$0")/../coq"
+cd "${1:-$(dirname "$0")/../coq}"
 {
   echo "-Q . EmdV"
   echo "-arg -w -arg -notation-overridden,-deprecated-hint-without-locality,-deprecated-syntactic-definition"
